@@ -48,6 +48,9 @@ def isas_special(did, k):
         [variant("Z\u00fcrich2", "tuple", [field("u8")]), variant("Caf\u00e92"), variant("M\u00fcnchen10", "named", [field("u8", "x")])],
         [variant("Solo", "tuple", [])],
         [variant("Solo")],
+        # more variants than a byte counts; a few carry payloads, a few are disabled
+        [variant("V%03d" % i, "tuple" if i in (5, 130, 258, 299) else "unit", [field("u8")] if i in (5, 130, 258, 299) else [], dis=(i in (7, 260)))
+         for i in range(300)],
     ]
     return enum(did, shapes[k % len(shapes)])
 
@@ -96,6 +99,8 @@ def isas_module(E, facts):
     body = []
     for i, v in enumerate(E["variants"]):
         k = i + 1
+        if len(E["variants"]) > 64 and not (i < 9 or i % 16 in (0, 15) or i > len(E["variants"]) - 45 or v["kind"] != "unit" or v["dis"]):
+            continue          # a very large enum: values around the multiples of 16 and the tail, each against EVERY method
         vals = _vals(E, v, 1)
         new = _vals(E, v, 2)
         blk = ["    {", "        let r = catch(|| {"]
@@ -146,7 +151,7 @@ def isas_module(E, facts):
 
 
 # --------------------------------------------------------------------------- EnumMessage (C14)
-DOC_LINES = ["", " ", "  two leading", " one leading", "none leading", "   three", " quote \" and \\ backslash", " braces {x} {{y}}", " é ünï €",
+DOC_LINES = ["", " ", " first\nsecond", "  two leading", " one leading", "none leading", "   three", " quote \" and \\ backslash", " braces {x} {{y}}", " é ünï €",
              "\ttab", " trailing ", "  ", " /// nested", " * star"]
 MSGS = ["", "msg", "Message with {braces}", "üni", " lead", "quote\"d", "multi\nline"]
 
@@ -178,6 +183,8 @@ def msg_special(did, k):
         [variant("Gerbil", dis=True, dmsg="a very hidden gerbil"), variant("Cat", msg="cat")],
         [variant("Rat", dis=True, msg="rat", dmsg="a very hidden rat", docs=[" hidden"]), variant("Dog", dmsg="only detail")],
         [variant("Tab", docs=["\ttab first"]), variant("Nbsp", docs=["\u00a0nbsp first", "\u3000wide"]), variant("Sp", docs=["  two", " one", "none", ""])],
+        [variant("Kilo", ser=["kB", "KB", "kilobyte"], aci=1), variant("Mega", ser=["mb"], ts="MB", aci=1, acif=1), variant("Giga", ser=["gb", "GB!"], aci=0)],
+        [variant("Block", docs=[" first\nsecond"]), variant("Block2", docs=[" a\n b\n"]), variant("Two", docs=[" x\ny", " z"]), variant("Plain", docs=[" one"])],
     ]
     return enum(did, shapes[k % len(shapes)])
 
@@ -249,8 +256,15 @@ def prop_special(did, k):
         [variant("First", props=[P("colour", "s", "red", 0)]), variant("Hidden", dis=True, props=[P("colour", "s", "grey", 0), P("closed", "b", [1], 0, "true")]),
          variant("Second", "tuple", [field("u8")], props=[P("colour", "s", "blue", 0)]), variant("Last")],
     ]
+    shapes.append([variant("Text", props=[P("level", "s", "3", 0), P("on", "s", "true", 0), P("width", "s", "16", 0)]),
+                   variant("Number", props=[P("level", "i", "3", 0, "3"), P("on", "b", [1], 0, "true"), P("width", "i", "16", 0, "0x10")]),
+                   variant("Same", props=[P("level", "s", "3", 0), P("on", "s", "true", 0), P("width", "s", "16", 0)])])
+    shapes.append([variant("V%03d" % i, "tuple" if i == 200 else "unit", [field("u8")] if i == 200 else [],
+                           props=([P("tag", "s", "low", 0), P("n", "i", "3", 0, "3")] if i == 3 else
+                                  [P("mark", "b", [1], 0, "true"), P("n", "i", "259", 0, "259")] if i == 259 else []))
+                   for i in range(300)])
     E = enum(did, shapes[k % len(shapes)])
-    if k >= 2:
+    if k == 2:
         E = enum(did, [variant("Room", props=[P("Room", "s", "201", 0), P("room", "i", "7", 0, "7")], aci=1), variant("Plain", props=[P("Key", "s", "true", 0)])], aci=True)
     return E
 
